@@ -134,6 +134,17 @@ def available() -> bool:
         return False
 
 
+def _unlimit() -> None:
+    """The worker process caps its address space (vp/props/c12.py); the fuzzer sub-process gets the hard limit back."""
+    try:
+        import resource
+
+        _soft, hard = resource.getrlimit(resource.RLIMIT_AS)
+        resource.setrlimit(resource.RLIMIT_AS, (hard, hard))
+    except Exception:  # noqa: BLE001, S110
+        pass
+
+
 def _one_run(ctx, name: str, corpus: Path, runs: int, max_time: int, seed: int, dict_file: Path) -> dict:
     from vp.common import bootstrap
     from vp.common.bootstrap import HarnessError
@@ -147,7 +158,7 @@ def _one_run(ctx, name: str, corpus: Path, runs: int, max_time: int, seed: int, 
     cmd = [sys.executable, str(Path(__file__).resolve()), str(corpus), f"-runs={runs}", f"-seed={seed}", f"-max_len={MAX_LEN}",
            f"-max_total_time={max_time}", f"-dict={dict_file}", "-print_final_stats=1", "-timeout=120", f"-artifact_prefix={out}/"]  # fmt: skip
     try:
-        p = subprocess.run(cmd, env=env, capture_output=True, text=True, errors="replace", timeout=max_time + 300, cwd=str(ctx.tmp))
+        p = subprocess.run(cmd, env=env, capture_output=True, text=True, errors="replace", timeout=max_time + 300, cwd=str(ctx.tmp), preexec_fn=_unlimit)
         err, rc = p.stderr, p.returncode
     except subprocess.TimeoutExpired as te:
         err, rc = (te.stderr or b"").decode("utf-8", "replace") if isinstance(te.stderr, bytes) else (te.stderr or ""), -9
